@@ -212,7 +212,9 @@ def socks_request(kind, host, port):
 
 class World:
     def __init__(self, kind='local', keep_l=True, keep_r=True,
-                 sizes=(1, 300, 5000), manual=True, server_cb=None):
+                 sizes=(1, 300, 5000), manual=True, server_cb=None,
+                 connect_l=True):
+        self.connect_l = connect_l
         self.kind = kind
         self.keep = {'L': keep_l, 'R': keep_r}
         self.sizes = tuple(sizes)
@@ -329,7 +331,8 @@ class World:
                                f'registered: {list(loop.net.listeners)}')
         if self.manual:
             self.ct.auto = self.st.auto = False
-        self._connect_l()
+        if self.connect_l:
+            self._connect_l()
 
     def _connect_l(self):
         loop = self.loop
@@ -2006,6 +2009,582 @@ def replay_listeners(steps, nslots=4, dst_variant=0):
         res['l1'] = list(w.l1)
         res['loop_exceptions'] = [repr(c.get('exception') or c.get('message'))
                                   for c in w.loop.exceptions]
+    finally:
+        w.stop()
+    return res
+
+
+# ======================================================================
+# code -> spec: forwarded connections recorded from naturally scheduled
+# runs, validated by TLC against specs/Forward/ForwardTrace.tla
+# ======================================================================
+
+NAT_KINDS = ('local', 'remote', 'socks5', 'socks4a', 'lpath', 'rpath')
+_SEND_MAP = {'open': 'open', 'eof_pending': 'eof', 'eof': 'eof',
+             'close_pending': 'closed', 'closed': 'closed'}
+_RECV_MAP = {'open': 'open', 'eof_pending': 'eof', 'eof': 'eof',
+             'close_pending': 'closed', 'closed': 'closed'}
+_OUT_KIND = {91: 'conf', 92: 'fail', 93: 'window', 94: 'data', 95: 'xdata',
+             96: 'eof', 97: 'close', 98: 'request', 99: 'success',
+             100: 'failure'}
+
+
+class _NConn:
+    """one forwarded connection of a natural run"""
+
+    def __init__(self, idx):
+        self.idx = idx
+        self.app = {'L': None, 'R': None}
+        self.fwd = {'L': None, 'R': None}       # FL / P
+        self.sess = {'O': None, 'A': None}      # X / Y
+        self.chan = {'O': None, 'A': None}
+        self.cid = {'O': None, 'A': None}       # local channel numbers
+        self.confirmed = False
+        self.failed = False
+        self.a_failed = False
+        self.ev = []
+        self.usz = {'L': [], 'R': []}
+        self.sent = {'L': bytearray(), 'R': bytearray()}
+        self.app_open = {'L': True, 'R': True}  # shadow of the model's appSt
+        self.fin_logged = {'L': False, 'R': False}
+        self.close_logged = {'L': False, 'R': False}
+        self.outb = {'L': 0, 'R': 0}
+        self.seen_total = {'L': 0, 'R': 0}
+        self.pending_out = {'O': [], 'A': []}
+        self.exempt = set()
+        self.resets = set()
+        self.stray = []
+        self.wire_open = None
+
+
+def record_natural(seed, kind='local', nconn=1, mode='mixed'):
+    """One SSH connection with one forward listener of `kind`; nconn
+    forwarded connections driven by independent tasks at their four ends.
+    Returns dict(traces=[...], l1=[...], stats, loop_exceptions)."""
+    import random
+    rng = random.Random(seed)
+    w = World(kind, True, True, manual=False, connect_l=False)
+    w.start()
+    loop = w.loop
+    remote = kind in REMOTE_KINDS
+    connO, connA, tO, tA = w.connO, w.connA, w.tO, w.tA
+    conns = []
+    by_cid = {'O': {}, 'A': {}}
+    by_orig = {}
+    unix_order = []
+    state = {'cut': None, 'logging': True, 'lsn_closed': False,
+             'stop': False, 'refused': False}
+    held = set()
+    bounds = []                 # byte offsets (of tA's output) ending a CONF
+    consumed = [0]
+    l1 = []
+    last_in = {'O': None, 'A': None}
+
+    def flag(clause, detail):
+        if not any(c == clause for c, _ in l1):
+            l1.append((clause, detail))
+
+    # ---- logical state of the real objects -----------------------------
+    def ft(c, e):
+        app = c.app[e]
+        return app.t.peer if app is not None and app.t is not None else None
+
+    def logically_closed(c, e):
+        x = 'O' if e == 'L' else 'A'
+        t = ft(c, e)
+        if state['cut'] or t is None or t.closed or t.closing:
+            return True
+        if x == 'O' and c.failed:
+            return True
+        ch = c.chan[x]
+        established = c.confirmed if x == 'O' else ch is not None
+        return bool(established and ch is not None and
+                    ch._recv_state == 'closed')
+
+    def update_out(c):
+        for e in 'LR':
+            t = ft(c, e)
+            if t is None:
+                continue
+            total = sum(len(x) for x in t.writes)
+            delta = total - c.seen_total[e]
+            c.seen_total[e] = total
+            if c.app_open[e]:
+                c.outb[e] += delta
+
+    def snap(c, x):
+        e = 'L' if x == 'O' else 'R'
+        ch, f, se = c.chan[x], c.fwd[e], c.sess[x]
+        lc = logically_closed(c, e)
+        if x == 'O':
+            if c.failed:
+                chs = chr_ = 'closed'
+                pair = 'closed'
+            elif not c.confirmed:
+                chs = chr_ = 'init'
+                pair = 'pre'
+            else:
+                chs, chr_ = _SEND_MAP[ch._send_state], _RECV_MAP[ch._recv_state]
+                pair = 'up' if (not lc and f._peer is not None) else 'closed'
+            sock = 'closed' if lc else 'open'
+        else:
+            if c.a_failed:
+                chs = chr_ = 'closed'
+                pair, sock = 'none', 'none'
+            elif ch is None:
+                chs = chr_ = 'init'
+                pair, sock = 'none', 'none'
+            else:
+                chs, chr_ = _SEND_MAP[ch._send_state], _RECV_MAP[ch._recv_state]
+                pair = 'up' if (not lc and f is not None and
+                                f._peer is not None) else 'closed'
+                sock = 'closed' if lc else 'open'
+        return {'sock': sock, 'pair': pair, 'chs': chs, 'chr': chr_,
+                'buf': len(f._inpbuf) if (f is not None and x == 'O') else 0,
+                'feof': bool(f._eof_received) if f is not None else False,
+                'ceof': bool(se._eof_received) if se is not None else False,
+                'outb': c.outb[e]}
+
+    def log(c, kind_, side=None, **kw):
+        if not state['logging']:
+            return
+        update_out(c)
+        ev = dict(e=kind_, **kw)
+        if side is not None:
+            ev['side'] = side
+            ev['out'] = c.pending_out[side]
+            c.pending_out[side] = []
+            if c.sess[side] is None:
+                f = c.fwd['L' if side == 'O' else 'R']
+                if f is not None and f._peer is not None:
+                    c.sess[side] = f._peer
+            ev['st'] = snap(c, side)
+        c.ev.append(ev)
+        if kind_ in ('C', 'X'):
+            c.app_open[kw['end']] = False
+            c.close_logged[kw['end']] = True
+        if kind_ in ('E', 'C', 'X'):
+            c.fin_logged[kw['end']] = True
+
+    # ---- forwarder socket callbacks ------------------------------------
+    def wrap_forwarder(c, e, f):
+        c.fwd[e] = f
+        x = 'O' if e == 'L' else 'A'
+        o_data, o_eof = f.data_received, f.eof_received
+
+        def data_received(data, datatype=None):
+            handshake = getattr(f, '_recv_handler', None) is not None
+            o_data(data, datatype)
+            if handshake or logically_closed(c, e) or not state['logging']:
+                return
+            c.usz[e].append(len(data))
+            log(c, 'W', side=x, end=e)
+
+        def eof_received():
+            res = o_eof()
+            if not c.fin_logged[e]:
+                log(c, 'C' if c.app[e].closed else 'E', side=x, end=e)
+            return res
+        f.data_received = data_received
+        f.eof_received = eof_received
+
+    # ---- SSH hooks -------------------------------------------------------
+    def parse_open(pl):
+        from asyncssh.packet import SSHPacket
+        p = SSHPacket(pl)
+        p.get_byte()
+        ctype = p.get_string()
+        sender = p.get_uint32()
+        p.get_uint32(), p.get_uint32()
+        info = {'type': ctype.decode(), 'sender': sender}
+        if ctype in (b'direct-tcpip', b'forwarded-tcpip'):
+            info['dest'] = (p.get_string().decode(), p.get_uint32())
+            info['orig'] = (p.get_string().decode(), p.get_uint32())
+        return info
+
+    def sink(name, f):
+        conn = f.get('conn')
+        side = 'O' if conn is connO else 'A' if conn is connA else None
+        t = f.get('pkttype')
+        if side is None or t is None or t < 90:
+            return
+        if name == 'pkt_out':
+            pl = f['payload']
+            if t == 90:
+                info = parse_open(pl)
+                c = by_orig.get(info.get('orig'))
+                if c is None:
+                    c = next((k for k in unix_order if k.cid['O'] is None),
+                             None)
+                if c is None or side != 'O':
+                    return
+                c.cid['O'] = info['sender']
+                by_cid['O'][info['sender']] = c
+                c.chan['O'] = connO._channels.get(info['sender'])
+                c.wire_open = info
+                return
+            rcpt = int.from_bytes(pl[1:5], 'big')
+            other = 'A' if side == 'O' else 'O'
+            c = by_cid[other].get(rcpt)
+            if c is None:
+                return
+            n = int.from_bytes(pl[5:9], 'big') if t == 94 else 0
+            c.pending_out[side].append([_OUT_KIND.get(t, str(t)), n])
+            if side == 'A' and t in (91, 92):
+                bounds.append(sum(len(x) for x in tA.writes))
+                if t == 91:
+                    sender = int.from_bytes(pl[5:9], 'big')
+                    c.cid['A'] = sender
+                    by_cid['A'][sender] = c
+                    ch = connA._channels.get(sender)
+                    c.chan['A'] = ch
+                    y = ch._session
+                    c.sess['A'] = y
+                    pf = y._peer
+                    c.app['R'] = pf._transport.peer.protocol
+                    wrap_forwarder(c, 'R', pf)
+                else:
+                    c.a_failed = True
+                log(c, 'DOA', side='A', ok=(t == 91), first=True)
+        elif name == 'pkt_in':
+            pl = f['payload']
+            if t == 90:
+                last_in[side] = None
+                return
+            c = by_cid[side].get(int.from_bytes(pl[1:5], 'big'))
+            last_in[side] = (c, t)
+        elif name in ('pkt_done', 'pkt_handled'):
+            cur, last_in[side] = last_in[side], None
+            if cur is None or cur[0] is None or cur[1] != t:
+                return
+            c = cur[0]
+            if t == 91 and side == 'O':
+                hold(c)
+                loop.call_soon(check_conf, c, 0)
+            elif t == 92 and side == 'O':
+                c.failed = True
+                log(c, 'DAO', side='O', first=False)
+            elif t in (94, 96, 97):
+                log(c, 'DAO' if side == 'O' else 'DOA', side=side,
+                    ok=True, first=False)
+
+    def hold(c):
+        held.add(c.idx)
+        tO.auto = False
+
+    def unhold(c):
+        held.discard(c.idx)
+        if not held:
+            tO.auto = True
+
+    def check_conf(c, n):
+        ch = c.chan['O']
+        if ch._session is None and ch._send_state == 'open' and n < 4:
+            loop.call_soon(check_conf, c, n + 1)
+            return
+        c.confirmed = True
+        log(c, 'DAO', side='O', first=False)
+        loop.call_soon(release, c, 0)
+
+    def release(c, n):
+        ch = c.chan['O']
+        if ch._recv_paused == 'starting' and n < 6 and not state['cut']:
+            loop.call_soon(release, c, n + 1)
+        else:
+            unhold(c)
+
+    def chunk_o(avail):
+        n = avail if 'whole' in mode else rng.randint(1, max(1, avail))
+        for b in bounds:
+            if b > consumed[0]:
+                n = min(n, b - consumed[0])
+                break
+        consumed[0] += n
+        return n
+
+    # ---- application actions ----------------------------------------------
+    def unit(c, e, n):
+        base = len(c.sent[e]) + (17 if e == 'L' else 101) + 31 * c.idx
+        return bytes((base + 7 * i) % 251 for i in range(n))
+
+    def act_write(c, e, n):
+        app = c.app[e]
+        data = unit(c, e, n)
+        c.sent[e] += data
+        app.write(data)
+
+    def act_eof(c, e):
+        app = c.app[e]
+        app.write_eof()
+        if logically_closed(c, e) and not c.fin_logged[e]:
+            log(c, 'E', side=None, end=e)
+
+    def act_close(c, e):
+        app = c.app[e]
+        if not app.eof_seen:
+            c.exempt.add(e)
+        app.close()
+        if (c.fin_logged[e] or logically_closed(c, e)) and \
+                not c.close_logged[e]:
+            log(c, 'C', side=None, end=e)
+
+    def act_reset(c, e):
+        if logically_closed(c, e) or state['cut']:
+            return
+        app = c.app[e]
+        t = ft(c, e)
+        c.resets.add(e)
+        c.exempt.add(e)
+        app.fin_sent = app.closed = True
+        app.t.cut()
+        t.cut(ConnectionResetError(104, 'Connection reset by peer'))
+        log(c, 'X', side='O' if e == 'L' else 'A', end=e)
+
+    async def app_task(c, e):
+        app = None
+        for _ in range(400):
+            app = c.app[e]
+            if app is not None and app.t is not None:
+                break
+            if c.failed or state['stop']:
+                return
+            await asyncio.sleep(0.0005)
+        else:
+            return
+        nwrites = 0
+        for _ in range(rng.randint(2, 9)):
+            await asyncio.sleep(rng.choice([0, 0, 0.0003, 0.001, 0.003, 0.008]))
+            if state['stop'] or app.closed or app.lost:
+                return
+            r = rng.random()
+            if app.eof_seen and r < 0.35:
+                act_close(c, e)
+                return
+            if r < 0.62 and not app.fin_sent and nwrites < 6:
+                nwrites += 1
+                act_write(c, e, rng.choice([1, 2, 17, 300, 1500, 4000]))
+            elif r < 0.74 and not app.fin_sent:
+                act_eof(c, e)
+            elif r < 0.84:
+                act_close(c, e)
+                return
+            elif r < 0.89 and 'noreset' not in mode:
+                act_reset(c, e)
+                return
+        # a polite end: half-close, wait for the other side, close
+        await asyncio.sleep(rng.choice([0.001, 0.004]))
+        if not (state['stop'] or app.closed or app.lost):
+            if not app.fin_sent and rng.random() < 0.7:
+                act_eof(c, e)
+            for _ in range(40):
+                if app.eof_seen or state['stop']:
+                    break
+                await asyncio.sleep(0.001)
+            if not (app.closed or app.lost or state['stop']) and \
+                    rng.random() < 0.8:
+                act_close(c, e)
+
+    async def connect_l(c):
+        app = App(w, 'L', True)
+        c.app['L'] = app
+        if w.lsn_key[0] == 'unix':
+            unix_order.append(c)
+            await loop.create_unix_connection(lambda: app, L_PATH)
+        else:
+            await loop.create_connection(lambda: app, *w.lsn_key)
+            by_orig[tuple(app.t.get_extra_info('sockname')[:2])] = c
+        f = app.t.peer.protocol
+        wrap_forwarder(c, 'L', f)
+        if kind.startswith('socks'):
+            msgs, replies = socks_request(kind, 'desthost', R_PORT)
+            want = 0
+            for m, rep_ in zip(msgs, replies):
+                app.t.write(m)
+                want += len(rep_)
+                for _ in range(200):
+                    if len(app.data) >= want or app.lost:
+                        break
+                    await asyncio.sleep(0.0002)
+            app.skip = want
+            if bytes(app.data[:want]) != b''.join(replies):
+                flag('SocksReply', f'unexpected SOCKS reply '
+                     f'{bytes(app.data[:want]).hex()}')
+        c.seen_total['L'] = sum(len(x) for x in app.t.peer.writes)
+
+    async def one_connection(c, delay):
+        await asyncio.sleep(delay)
+        if state['stop'] or state['lsn_closed']:
+            return
+        try:
+            await connect_l(c)
+        except OSError:
+            return
+        conns.append(c)
+        await asyncio.gather(app_task(c, 'L'), app_task(c, 'R'))
+
+    async def cutter():
+        await asyncio.sleep(rng.choice([0.0005, 0.002, 0.005, 0.012]))
+        if state['stop']:
+            return
+        state['stop'] = True
+        t = rng.choice([tO, tA])
+        state['cut'] = 'O' if t is tO else 'A'
+        state['logging'] = False
+        held.clear()
+        t.cut()
+        tO.auto = tA.auto = True
+
+    async def lsn_closer():
+        await asyncio.sleep(rng.choice([0.001, 0.004, 0.009]))
+        if state['stop'] or len(conns) < nconn:
+            return
+        state['lsn_closed'] = True
+        w.lsn.close()
+        for c in conns:
+            log(c, 'LSN')
+
+    async def refuser():
+        await asyncio.sleep(rng.choice([0, 0.0002, 0.0006, 0.002]))
+        state['refused'] = True
+        w.rsrv.close()
+
+    async def staller():
+        for _ in range(12):
+            await asyncio.sleep(rng.choice([0.0004, 0.001, 0.003]))
+            if state['stop']:
+                break
+            t = rng.choice([tO, tA])
+            if t is tO and held:
+                continue
+            t.auto = not t.auto
+        if not held:
+            tO.auto = True
+        tA.auto = True
+
+    async def go():
+        tasks = [one_connection(_NConn(i), 0 if i == 0 else
+                                rng.choice([0, 0.0005, 0.002, 0.006]))
+                 for i in range(nconn)]
+        r = rng.random()
+        if 'nocut' not in mode and r < 0.2:
+            tasks.append(cutter())
+        elif not remote and r < 0.35 and 'nolsn' not in mode:
+            tasks.append(lsn_closer())
+        if rng.random() < 0.15 and 'norefuse' not in mode:
+            tasks.append(refuser())
+        if 'stall' in mode or mode == 'mixed':
+            tasks.append(staller())
+        await asyncio.gather(*tasks)
+
+    _verif.set_sink(sink)
+    tO.chunker = chunk_o
+    if 'whole' not in mode:
+        tA.chunker = lambda avail: rng.randint(1, max(1, avail))
+        sock_chunk = (lambda avail: rng.randint(1, max(1, avail))) \
+            if 'tiny' not in mode else (lambda avail: rng.randint(1, 7))
+        orig_connect = loop.net.connect
+
+        def connect(factory, addr, local_addr=None):
+            ct_, cp = orig_connect(factory, addr, local_addr)
+            if ct_.peer is not tO and ct_.peer is not tA:
+                ct_.chunker = sock_chunk
+                ct_.peer.chunker = sock_chunk
+            return ct_, cp
+        loop.net.connect = connect
+    res = {'traces': [], 'l1': l1, 'kind': kind, 'nconn': nconn,
+           'mode': mode, 'seed': seed}
+    outcome = 'ok'
+    try:
+        try:
+            loop.run_until_complete(go())
+        except Deadlock:
+            outcome = 'deadlock'
+        state['stop'] = True
+        held.clear()
+        tO.auto = tA.auto = True
+        loop.run_until_idle()
+        if state['cut']:
+            state['logging'] = True
+            for c in conns:
+                def s_(e):
+                    t = ft(c, e)
+                    return 'none' if t is None else \
+                        'closed' if (t.closed or t.closing) else 'open'
+                c.ev.append({'e': 'CUT', 'x': state['cut'],
+                             'st': {'sockL': s_('L'), 'sockR': s_('R'),
+                                    'lsn': 'open' if w.lsn_key in
+                                    loop.net.listeners else 'closed'}})
+        state['logging'] = False
+        # ---- monitors on the recording itself ----------------------------
+        for c in conns:
+            L, R = c.app['L'], c.app['R']
+            for e, o in (('R', 'L'), ('L', 'R')):
+                app = c.app[e]
+                if app is None:
+                    continue
+                got = app.payload()
+                if bytes(c.sent[o][:len(got)]) != got:
+                    flag('RelayFIFO', f'connection {c.idx}: {e} received '
+                         f'{len(got)} bytes that are not a prefix of what '
+                         f'{o} sent')
+            clean = not (c.failed or c.a_failed or c.resets or state['cut']
+                         or outcome != 'ok')
+            if clean and R is None:
+                flag('Complete', f'connection {c.idx}: the open was not '
+                     'refused but the destination was never connected')
+            if clean and R is not None:
+                for e, o in (('R', 'L'), ('L', 'R')):
+                    a, b = c.app[e], c.app[o]
+                    if e not in c.exempt and \
+                            a.payload() != bytes(c.sent[o]):
+                        flag('Complete', f'connection {c.idx}: {e} received '
+                             f'{len(a.payload())} of the {len(c.sent[o])} '
+                             f'bytes {o} sent')
+                    if b.fin_sent and not (a.eof_seen or e in c.exempt):
+                        flag('HalfClose', f'connection {c.idx}: {o} sent EOF '
+                             f'but {e} never saw it')
+            if remote and c.wire_open and 'dest' in c.wire_open and \
+                    c.wire_open['dest'][1] != w.lsn_key[1]:
+                flag('WirePort', f'forwarded-tcpip open names port '
+                     f'{c.wire_open["dest"][1]}, the listener is bound to '
+                     f'{w.lsn_key[1]}')
+            if c.failed and L is not None and not (L.eof_seen or L.lost or
+                                                   L.closed):
+                flag('FailureClean', f'connection {c.idx}: open was refused '
+                     'but the local connection was not closed')
+            for x in 'OA':
+                if c.pending_out[x]:
+                    c.stray.append((x, c.pending_out[x]))
+            res['traces'].append({'ev': c.ev, 'usz': c.usz,
+                                  'idx': c.idx, 'stray': c.stray})
+        # the SSH connection ends: nothing of it may be left
+        if not state['cut']:
+            w.cconn.close()
+            loop.run_until_idle()
+        if w.lsn_key in loop.net.listeners:
+            flag('NoListenerLeft', f'listener {w.lsn_key} survives its '
+                 'connection')
+        left = w.relayed_sockets()
+        if left:
+            flag('NoListenerLeft', f'{len(left)} relayed socket(s) survive '
+                 'the SSH connection')
+        for c in conns:
+            for e in 'LR':
+                a = c.app[e]
+                if a is not None and a.t is not None and \
+                        not (a.lost or a.closed or a.eof_seen):
+                    flag('NoListenerLeft', f'connection {c.idx}: {e} is not '
+                         'told that the connection is gone')
+        res['outcome'] = outcome
+        res['loop_exceptions'] = w.loop_exceptions()
+        res['stats'] = {
+            'events': sum(len(c.ev) for c in conns),
+            'early': sum(1 for c in conns for i, e in enumerate(c.ev)
+                         if e['e'] == 'W' and e['end'] == 'L' and
+                         e['st']['pair'] == 'pre'),
+            'cut': bool(state['cut']), 'refused': any(c.failed for c in conns),
+            'resets': sum(len(c.resets) for c in conns),
+            'conns': len(conns)}
     finally:
         w.stop()
     return res
